@@ -15,6 +15,8 @@ func init() {
 				Witnesses: []string{"upgraded", "stuffed-startup-ignored", "refused-then-plaintext", "cancel-after-upgrade", "repeated-sslrequest-inside-tls", "empty-config-on-field", "limit-enforced-inside-tls", "limit-enforced-after-refusal", "repeated-sslrequest-after-refusal"}},
 			{Pkg: "wire", Entry: "VerifH11", What: "a callback that panics inside a TLS session (the embedder recovers whatever escapes serve): whatever the library writes about it, it writes inside TLS — after 'S' the raw connection carries TLS records only",
 				Quick: map[string]int{"STUFF": 2, "PANICS": 1}, Witnesses: []string{"callback-panicked-inside-tls"}},
+			{Pkg: "wire", Entry: "VerifH11", What: "same, the TLS configuration asking for (not insisting on) a client certificate and the client presenting none: the upgraded session behaves like its plaintext equivalent",
+				Quick: map[string]int{"STUFF": 2, "CLIENTAUTH": 1}, Witnesses: []string{"client-certificate-requested-none-presented", "upgraded"}},
 			{Pkg: "wire", Entry: "VerifH12b", What: "CancelRequest after the SSL refusal closes without reply or callback",
 				Quick: map[string]int{}, Witnesses: []string{"cancel-after-ssl"}},
 			{Pkg: "wire", Entry: "VerifH11d", What: "differential: a session (startup, one message of symbolic type and body with a correct, too small or oversized declared length, a simple query, Terminate) served in plaintext and inside TLS by two equally configured servers gives the same transcript and the same callback trace",
